@@ -93,3 +93,91 @@ macro_rules! fail {
 pub fn digest_of<T: std::fmt::Debug>(t: &T) -> u64 {
     crate::util::fnv64(format!("{:?}", t).as_bytes())
 }
+
+// ---------------------------------------------------------------------------------------------
+// A copy of the global slot chain plus a recording statistic slot (so the BlockError a custom
+// StatSlot receives can be judged, not only the error text).
+use sentinel_core::base::{BaseSlot, BlockError, EntryContext, SlotChain, StatSlot};
+use std::sync::{Arc, Mutex, OnceLock};
+
+#[derive(Debug, Clone, Default)]
+pub struct Recorded {
+    pub block_type: String,
+    pub block_msg: String,
+    pub rule_debug: Option<String>,
+    pub value_debug: Option<String>,
+}
+
+#[derive(Default)]
+pub struct RecorderSlot {
+    pub last_block: Mutex<Option<Recorded>>,
+    pub passes: Mutex<u64>,
+    pub completes: Mutex<u64>,
+}
+
+impl BaseSlot for RecorderSlot {
+    fn order(&self) -> u32 {
+        9000
+    }
+}
+
+impl StatSlot for RecorderSlot {
+    fn on_entry_pass(&self, _ctx: &EntryContext) {
+        *self.passes.lock().unwrap() += 1;
+    }
+    fn on_entry_blocked(&self, _ctx: &EntryContext, e: BlockError) {
+        *self.last_block.lock().unwrap() = Some(Recorded {
+            block_type: format!("{:?}", e.block_type()),
+            block_msg: e.block_msg(),
+            rule_debug: e.triggered_rule().map(|r| format!("{:?}", r)),
+            value_debug: e.triggered_value().map(|v| format!("{:?}", v)),
+        });
+    }
+    fn on_completed(&self, _ctx: &mut EntryContext) {
+        *self.completes.lock().unwrap() += 1;
+    }
+}
+
+pub fn recording_chain() -> (Arc<SlotChain>, Arc<RecorderSlot>) {
+    static CHAIN: OnceLock<(Arc<SlotChain>, Arc<RecorderSlot>)> = OnceLock::new();
+    CHAIN
+        .get_or_init(|| {
+            use sentinel_core::{circuitbreaker, flow, hotspot, isolation, log, stat, system};
+            let rec = Arc::new(RecorderSlot::default());
+            let mut sc = SlotChain::new();
+            sc.add_stat_prepare_slot(stat::verif_export::default_resource_node_prepare_slot());
+            sc.add_rule_check_slot(system::default_slot());
+            sc.add_rule_check_slot(flow::default_slot());
+            sc.add_rule_check_slot(isolation::default_slot());
+            sc.add_rule_check_slot(hotspot::default_slot());
+            sc.add_rule_check_slot(circuitbreaker::default_slot());
+            sc.add_stat_slot(stat::verif_export::default_resource_stat_slot());
+            sc.add_stat_slot(log::default_stat_slot());
+            sc.add_stat_slot(flow::default_stand_alone_stat_slot());
+            sc.add_stat_slot(hotspot::default_stand_alone_stat_slot());
+            sc.add_stat_slot(circuitbreaker::default_metric_stat_slot());
+            sc.add_stat_slot(rec.clone());
+            (Arc::new(sc), rec)
+        })
+        .clone()
+}
+
+/// build through the recording chain; on block returns (error text, what the recorder saw)
+pub fn build_recorded(r: Req) -> Result<EntryStrongPtr, (String, Option<Recorded>)> {
+    let (chain, rec) = recording_chain();
+    *rec.last_block.lock().unwrap() = None;
+    let mut b = EntryBuilder::new(r.res.to_string())
+        .with_batch_count(r.batch)
+        .with_slot_chain(chain)
+        .with_traffic_type(if r.inbound { TrafficType::Inbound } else { TrafficType::Outbound });
+    if r.args.is_some() {
+        b = b.with_args(r.args);
+    }
+    if r.attachments.is_some() {
+        b = b.with_attachments(r.attachments);
+    }
+    match b.build() {
+        Ok(e) => Ok(e),
+        Err(e) => Err((e.to_string(), rec.last_block.lock().unwrap().clone())),
+    }
+}
